@@ -58,12 +58,39 @@ def run_mat(ctx, bins):
             ctx.replay(b, "codec-mat", cases, name="R2 replay mat binary %s [%s]" % (mode, bn))
 
 
+RDF_R1 = "OrbitIsDef DefIsOrbit Equivalence OrbitStabiliser ShardInvariant"
+
+
+def run_rdf(ctx, bins):
+    thorough = ctx.tier == "thorough"
+    spec, cfg = "codec/RdfIso.tla", "codec/RdfIso.cfg"
+    # R1: Iso (orbit form) = the definition by bijections, is an equivalence, orbit-stabiliser, shard invariance
+    ctx.tlc(spec, cfg, subst=dict(NB=3, MINQ=0, MAXQ=3, SHARD=0, NSHARDS=1, EMIT="FALSE", INVS=RDF_R1), workers=4,
+            name="R1 RdfIso: all datasets <= 3 quads, 3 blank labels")
+    if thorough:
+        ctx.tlc(spec, cfg, subst=dict(NB=3, MINQ=4, MAXQ=4, SHARD=0, NSHARDS=1, EMIT="FALSE", INVS=RDF_R1), workers=4,
+                name="R1 RdfIso: all datasets with 4 quads", timeout=1500)
+    # R2: every dataset with its class key
+    gens = [("<= 3 quads", dict(MINQ=1, MAXQ=3, SHARD=0, NSHARDS=1))]
+    if thorough:
+        gens += [("4 quads shard %d/4" % i, dict(MINQ=4, MAXQ=4, SHARD=i, NSHARDS=4)) for i in range(4)]
+    else:
+        gens.append(("4 quads shard %d/16 (by seed)" % (ctx.seed % 16), dict(MINQ=4, MAXQ=4, SHARD=ctx.seed % 16, NSHARDS=16)))
+    for name, sub in gens:
+        sub.update(NB=3, EMIT="TRUE", INVS="EmitCase")
+        cases = ctx.gen(spec, cfg, subst=sub, name="R2 gen rdf datasets " + name)
+        for bn, b in bins.items():
+            ctx.replay(b, "codec-rdf", cases, ["namings=b,rev,c14n,prefix,mixed" if thorough else "namings=b,rev,c14n"],
+                       name="R2 replay rdf %s [%s]" % (name, bn))
+
+
 def run(ctx):
     builds = [("default", "")]
     bins = {n: ctx.build(t) for n, t in builds}
 
     run_graph6(ctx, bins)
     run_mat(ctx, bins)
+    run_rdf(ctx, bins)
 
     ctx.assumptions += [
         "TLC/SANY and the CommunityModules Json module are trusted",
